@@ -34,7 +34,7 @@ theorem getBase_user (ty : Nat) (seg : ProgHeader) (B v0 limit : Nat)
   have hne : add64 B v0 ≠ 0 := by omega
   rcases hty with hty | hty
   · subst hty
-    simp [getBase, etExec, etRel, etDyn, hne, hstart.1, hstart.2, hub]
+    simp [getBase, etExec, hne, hstart.1, hstart.2, hub]
   · subst hty
     by_cases hc : seg.vaddr = sub64 (add64 B v0) (add64 seg.off (sub64 v0 seg.vaddr))
     · have hBo : B = seg.off := (cond1_iff seg B v0 hB ho hv).1 hc
@@ -131,10 +131,6 @@ theorem phfmKeep_imp (mo ms : Nat) (p : ProgHeader) (h : phfmKeep mo ms p = true
     · exact ⟨h1, h0⟩
     · simp [h0, h1] at h
 
-/-- "exactly one loadable header with file content contains the file offset `fo`" -/
-def OnlyOwner (f : File) (fo : Nat) (seg : ProgHeader) : Prop :=
-  f.progs.filter (fun h => h.ptype == ptLoad && decide (h.filesz ≠ 0) && hffoMatch fo h) = [seg]
-
 theorem cands_filter_match (f : File) (seg : ProgHeader) (mo ms fo : Nat)
     (hun : OnlyOwner f fo seg) (hkeep : phfmKeep mo ms seg = true) :
     (programHeadersForMapping (f.progs.filter (fun p => p.ptype == ptLoad)) mo ms).filter (hffoMatch fo) = [seg] := by
@@ -176,7 +172,8 @@ theorem hffoMatch_of_layout (seg : ProgHeader) (B v0 v1 : Nat) (m : Mapping) (x 
 theorem findProgramHeader_layout (f : File) (seg : ProgHeader) (B v0 v1 : Nat) (m : Mapping) (x : Nat)
     (hmem : seg ∈ f.progs) (hL : LoaderLayout 4096 seg B v0 v1 m) (hu : UserMapping m)
     (hx : InSegment seg B m x) :
-    findProgramHeader m f x = .ok (some seg) ∨ ∃ e, findProgramHeader m f x = .err e := by
+    findProgramHeader m f x = .ok (some seg) ∨
+      ∃ e, findProgramHeader m f x = .err e ∧ ¬ OnlyOwner f (add64 (sub64 x m.start) m.offset) seg := by
   have hkeep := phfmKeep_of_layout seg B v0 v1 m hL
   have hmatch := hffoMatch_of_layout seg B v0 v1 m x hL hx
   obtain ⟨hko, hs0, hl63⟩ := hu
@@ -208,7 +205,7 @@ theorem findProgramHeader_layout (f : File) (seg : ProgHeader) (B v0 v1 : Nat) (
         left; rfl
       | cons c2 cs' =>
         simp only []
-        rcases hffo_char (c1 :: c2 :: cs') (add64 (sub64 x m.start) m.offset) with ⟨h, hok, hfil⟩ | ⟨e, herr, _⟩
+        rcases hffo_char (c1 :: c2 :: cs') (add64 (sub64 x m.start) m.offset) with ⟨h, hok, hfil⟩ | ⟨e, herr, hlen⟩
         · left
           rw [hok]
           have : seg ∈ (c1 :: c2 :: cs').filter (hffoMatch (add64 (sub64 x m.start) m.offset)) := by
@@ -218,14 +215,20 @@ theorem findProgramHeader_layout (f : File) (seg : ProgHeader) (B v0 v1 : Nat) (
           subst this; rfl
         · right
           rw [herr]
-          exact ⟨e, rfl⟩
+          refine ⟨e, rfl, ?_⟩
+          intro hun
+          have := cands_filter_match f seg m.offset (sub64 m.limit m.start) _ hun hkeep
+          rw [hph, hc] at this
+          rw [this] at hlen
+          simp at hlen
 
 theorem objAddr_layout (f : File) (seg : ProgHeader) (B v0 v1 : Nat) (m : Mapping) (x : Nat)
     (hty : f.etype = etExec ∨ f.etype = etDyn) (hmem : seg ∈ f.progs)
     (hL : LoaderLayout 4096 seg B v0 v1 m) (hu : UserMapping m)
     (hk : ¬ KernelLookalike f.etype seg B v0) (hx : InSegment seg B m x) :
     (objAddr m f x = .ok (x - B) ∧ findProgramHeader m f x = .ok (some seg)) ∨
-    ∃ e, objAddr m f x = .err e ∧ findProgramHeader m f x = .err e := by
+    ∃ e, objAddr m f x = .err e ∧ findProgramHeader m f x = .err e ∧
+      ¬ OnlyOwner f (add64 (sub64 x m.start) m.offset) seg := by
   have hfp := findProgramHeader_layout f seg B v0 v1 m x hmem hL hu hx
   obtain ⟨hko, hs0, hl63⟩ := hu
   obtain ⟨hx1, hx2, hx3, hx4⟩ := hx
@@ -246,8 +249,51 @@ theorem objAddr_layout (f : File) (seg : ProgHeader) (B v0 v1 : Nat) (m : Mappin
   have hsub : sub64 x B = x - B := by unfold sub64 two64 two63 at *; omega
   unfold objAddr computeBase
   rw [if_neg hrange]
-  rcases hfp with h | ⟨e, h⟩
+  rcases hfp with h | ⟨e, h, hno⟩
   · left; rw [h]; simp [hgb, hsub]
-  · right; rw [h]; exact ⟨e, rfl, rfl⟩
+  · right; rw [h]; exact ⟨e, rfl, rfl, hno⟩
+
+
+theorem getBase_no_panic (ty : Nat) (seg : Option ProgHeader) (st : Option Nat) (start limit offset : Nat) (e : String) :
+    getBase ty seg st start limit offset ≠ .panic e := by
+  unfold getBase
+  repeat' split
+  all_goals simp
+
+theorem findProgramHeader_no_panic (m : Mapping) (f : File) (x : Nat) (e : String) :
+    findProgramHeader m f x ≠ .panic e := by
+  unfold findProgramHeader
+  by_cases hc : m.kernelOffset.isSome ∨ m.start ≥ m.limit ∨ m.limit ≥ two63
+  · rw [if_pos hc]; simp
+  · rw [if_neg hc]
+    cases f.progs.filter (fun p => p.ptype == ptLoad) with
+    | nil => simp
+    | cons p0 ps =>
+      simp only []
+      cases programHeadersForMapping (p0 :: ps) m.offset (sub64 m.limit m.start) with
+      | nil => simp
+      | cons c1 cs =>
+        cases cs with
+        | nil => simp
+        | cons c2 cs' =>
+          simp only []
+          rcases hffo_char (c1 :: c2 :: cs') (add64 (sub64 x m.start) m.offset) with ⟨h, hok, _⟩ | ⟨e', herr, _⟩
+          · rw [hok]; simp
+          · rw [herr]; simp
+
+theorem objAddr_no_panic (m : Mapping) (f : File) (x : Nat) (e : String) : objAddr m f x ≠ .panic e := by
+  unfold objAddr computeBase
+  by_cases hc : x < m.start ∨ x ≥ m.limit
+  · rw [if_pos hc]; simp
+  · rw [if_neg hc]
+    cases hfp : findProgramHeader m f x with
+    | ok ph =>
+      simp only []
+      cases hgb : getBase f.etype ph m.kernelOffset m.start m.limit m.offset with
+      | ok b => simp
+      | err e' => simp
+      | panic e' => exact absurd hgb (getBase_no_panic _ _ _ _ _ _ _)
+    | err e' => simp
+    | panic e' => exact absurd hfp (findProgramHeader_no_panic _ _ _ _)
 
 end PV.Elf
